@@ -68,6 +68,10 @@ func runOne(ctx context.Context, sp solverSpec, file string, timeoutS int) (stat
 		}
 		kept = append(kept, l)
 	}
+	if first == "unknown" || first == "timeout" {
+		// whatever follows (get-model / get-value complaints in any wording) is not an engine failure
+		return "unknown", out, secs
+	}
 	if strings.Contains(out, "ERRORS SATISFYING") || strings.Contains(out, "Fatal failure") {
 		return "error", out, secs // cvc5 --check-models rejected its own model
 	}
